@@ -297,6 +297,12 @@ func persistField(e *Ent, f Field, ctx *boltz.PersistContext) {
 }
 
 func writeField(b *boltz.TypedBucket, f Field, v any, e *Ent, ctx *boltz.PersistContext) {
+	if l, ok := v.([]string); ok && len(l) == 0 {
+		v = nil
+	}
+	if v == nil && ctx.IsCreate && e.NilAbsent && (f.Kind == KList || f.Kind == KLinks || f.Kind == KMap) {
+		return // leave the sub-bucket absent altogether (an empty set and an absent set are the same value)
+	}
 	if v == nil {
 		switch f.Kind {
 		case KStrReq:
